@@ -42,19 +42,19 @@ Proof. exact (order_conservation NW inputs G D). Qed.
 (* ---- the same laws period by period: a = record of period t, e = record of period t+1.
    produced in period t+1 = fCP e - fCP a (units produced is not a stockpyl state variable; the property eliminates it
    the same way through the raw-material balance) ---- *)
-Theorem C01_per_period_inventory : forall t m, (S t < length inputs)%nat -> In m (nodes NW) ->
+Theorem C01_per_period_inventory : forall t, (S t < length inputs)%nat -> forall m, In m (nodes NW) ->
   let a := nth t (run NW inputs) empty_st in let e := nth (S t) (run NW inputs) empty_st in
   gq e (fIL, m, Ext) == gq a (fIL, m, Ext) + (gq e (fCP, m, Ext) - gq a (fCP, m, Ext)) - qsumf (fun x => gq e (fIO, m, x)) (customers (C m)).
 Proof. exact (per_period_inventory NW inputs G D). Qed.
-Theorem C01_per_period_raw_material : forall t m q, (S t < length inputs)%nat -> In q (suppliers (C m)) ->
+Theorem C01_per_period_raw_material : forall t, (S t < length inputs)%nat -> forall m q, In q (suppliers (C m)) ->
   let a := nth t (run NW inputs) empty_st in let e := nth (S t) (run NW inputs) empty_st in
   gq e (fRM, m, q) == gq a (fRM, m, q) + gq e (fIS, m, q) - (gq e (fCP, m, Ext) - gq a (fCP, m, Ext)).
 Proof. exact (per_period_raw_material NW inputs G D). Qed.
-Theorem C01_per_period_edge : forall t n p, (S t < length inputs)%nat -> In p (preds (C n)) ->
+Theorem C01_per_period_edge : forall t, (S t < length inputs)%nat -> forall n p, In p (preds (C n)) ->
   let a := nth t (run NW inputs) empty_st in let e := nth (S t) (run NW inputs) empty_st in
   gq e (fOS, p, Nd n) == gq e (fIS, n, Nd p) + (qsum (gl e (fSP, n, Nd p)) - qsum (gl a (fSP, n, Nd p))) + (gq e (fIDI, n, Nd p) - gq a (fIDI, n, Nd p)).
 Proof. exact (per_period_edge NW inputs G D). Qed.
-Theorem C01_per_period_order_conservation : forall t m x, (S t < length inputs)%nat -> In x (customers (C m)) ->
+Theorem C01_per_period_order_conservation : forall t, (S t < length inputs)%nat -> forall m x, In x (customers (C m)) ->
   let a := nth t (run NW inputs) empty_st in let e := nth (S t) (run NW inputs) empty_st in
   gq e (fBO, m, x) + gq e (fODI, m, x) + gq e (fOS, m, x) == gq a (fBO, m, x) + gq a (fODI, m, x) + gq e (fIO, m, x).
 Proof. exact (per_period_order_conservation NW inputs G D). Qed.
